@@ -352,13 +352,50 @@ Fixpoint chs_unregister (m : mgr) (us : list Z) : mgr :=
       chs_unregister m1 us'
   end.
 
-Fixpoint enh_responses (m : mgr) (us dcids : list Z) (ok : bool) (credits : Z) : mgr :=
-  match us, dcids with
-  | u :: us', d :: ds' =>
-      let m1 := hupd m u (fun c => if ok then set_st (set_out (set_dcid c d) credits (c_pending c) (c_drained c)) SConnected
-                                   else set_st c SConnError) in
-      enh_responses m1 us' ds' ok credits
-  | _, _ => m
+(* create_enhanced_credit_based_channels creates the channels, then files
+   (future, channels) under the request identifier.  The model files the future with an
+   empty channel list first and appends each channel as it is created: the same final
+   state, reached through states that each satisfy the invariant. *)
+Definition pend_add (m : mgr) (h i u : Z) : mgr :=
+  match tget h i (m_pend m) with
+  | Some (w, us) => with_pend m (tset h i (w, us ++ [u]) (m_pend m))
+  | None => m
+  end.
+
+Fixpoint new_enh_chans (m : mgr) (h i : Z) (scids : list Z) : mgr :=
+  match scids with
+  | [] => m
+  | scid :: rest =>
+      let u := huid m in
+      let m1 := hnew m (mkChan KLe h scid 0 SInit 0 0 0 true None None i true) in
+      let m2 := with_chs m1 (tset h scid u (m_chs m1)) in
+      new_enh_chans (pend_add m2 h i u) h i rest
+  end.
+
+(* on_l2cap_credit_based_connection_response: for (channel, cid) in zip(channels, cids):
+   channel.on_enhanced_connection_response; then the future is completed and the
+   continuation of create_enhanced_credit_based_channels files every channel in
+   le_coc_channels (success) or removes every channel from `channels` (failure).  The model
+   handles one channel completely before the next (the operations on different channels
+   commute) and completes the future last. *)
+Definition pend_set (m : mgr) (h i : Z) (us : list Z) : mgr :=
+  match tget h i (m_pend m) with
+  | Some (w, _) => with_pend m (tset h i (w, us) (m_pend m))
+  | None => m
+  end.
+
+Fixpoint enh_each (m : mgr) (h i : Z) (us dcids : list Z) (ok : bool) (credits : Z) : mgr :=
+  match us with
+  | [] => m
+  | u :: us' =>
+      let m1 := pend_set m h i us' in
+      let m2 := match dcids with
+                | d :: _ =>
+                    hupd m1 u (fun c => if ok then set_st (set_out (set_dcid c d) credits (c_pending c) (c_drained c)) SConnected
+                                        else set_st c SConnError)
+                | [] => m1 end in
+      let m3 := if ok then le_register m2 [u] else chs_unregister m2 [u] in
+      enh_each m3 h i us' (tl dcids) ok credits
   end.
 
 (* ------------------------------------------------------------------ API calls *)
@@ -387,11 +424,10 @@ Definition open_enh (m : mgr) (h psm n credits : Z) : mgr * list frame :=
   | [] => (wnew m O_ERROR WOpenEnh h (-1), [])
   | scids =>
       let i := nid m h in
-      let '(m1, us) := new_le_chans m h SInit 0 i false (map (fun s => (s, 0)) scids) in
-      let m2 := next_id m1 h in
-      let w := wuid m2 in
-      let m3 := wnew m2 O_PENDING WOpenEnh h i in
-      (with_pend m3 (tset h i (w, us) (m_pend m3)), [FEnhReq i psm credits scids])
+      let w := wuid m in
+      let m1 := wnew (next_id m h) O_PENDING WOpenEnh h i in
+      let m2 := with_pend m1 (tset h i (w, []) (m_pend m1)) in
+      (new_enh_chans m2 h i scids, [FEnhReq i psm credits scids])
   end.
 
 Definition open_cl (m : mgr) (h psm mode : Z) : mgr * list frame :=
@@ -511,11 +547,10 @@ Definition recv_enh_rsp (m : mgr) (h id credits result : Z) (dcids : list Z) : m
   match tget h id (m_pend m) with
   | None => (m, [])
   | Some (w, us) =>
-      let m1 := with_pend m (tdel h id (m_pend m)) in
       let ok := Z.eqb result R_OK in
-      let m2 := enh_responses m1 us dcids ok credits in
-      if ok then (le_register (wres m2 w O_RESULT) us, [])
-      else (chs_unregister (wres m2 w O_ERROR) us, [])
+      let m1 := enh_each m h id us dcids ok credits in
+      let m2 := with_pend m1 (tdel h id (m_pend m1)) in
+      (wres m2 w (if ok then O_RESULT else O_ERROR), [])
   end.
 
 Definition recv_conn_req (m : mgr) (h id psm scid : Z) : mgr * list frame :=
